@@ -8,7 +8,7 @@ rsync -a --exclude target --exclude .git /repo/ $scratch/
 ( cd $scratch && git apply /verif/benign/$b/patch.diff ) || { echo "$b: patch does not apply"; rm -rf $scratch; exit 2; }
 cd /verif
 alarms=0; partial=0; hard=0
-for p in C01 C02 C03 C04 C05 C06 C07 C08 C09 C10 C11 C12 C13 C15 C16 C17 C18 C19; do
+for p in ${VX_PROPS:-C01 C02 C03 C04 C05 C06 C07 C08 C09 C10 C11 C12 C13 C15 C16 C17 C18 C19}; do
   VX_CACHE=1 VX_SCRATCH_ID=$b VX_REPO=$scratch VX_SCRATCH_OUT=$scratch/out ./vx check $p > $scratch/out.$p 2> $scratch/err.$p; rc=$?
   if grep -q "^VIOLATION" $scratch/out.$p; then alarms=$((alarms+1)); echo "  FALSE ALARM $b / $p:"; grep "violated:" $scratch/err.$p | head -3 | cut -c1-300; fi
   if grep -q "^UNDECIDED (partial)" $scratch/out.$p; then partial=$((partial+1)); fi
